@@ -110,3 +110,8 @@ impl DifficultyValues {
         diff_objects.into_boxed_slice()
     }
 }
+
+// Verification hook (compiled only by `cargo kani`, which sets `--cfg kani`).
+#[cfg(kani)]
+#[path = "/verif/harness/mania_diff.rs"]
+pub(crate) mod verif_harness;
